@@ -30,7 +30,7 @@ def gen_cases(tier: str, rng: random.Random) -> List[dict]:
             budget = {1: 10 ** 6, 2: 120, 3: 150}[nargs] * (1 if tier == "quick" else 6)
             if len(combos) > budget:
                 combos = rng.sample(combos, budget)
-            for combo in combos:
+            for ci, combo in enumerate(combos):
                 perms = list(itertools.permutations(range(1, nargs + 1)))
                 for flavour in ("named", "lambda"):
                     na, nk = rng.random() < 0.3, rng.random() < 0.3
@@ -38,10 +38,14 @@ def gen_cases(tier: str, rng: random.Random) -> List[dict]:
                         cases.append({"mid": len(cases) + 1, "flavour": flavour, "default_repr": default_repr,
                                       "maxstring": ms, "maxlist": ml, "named_args": na, "named_kwargs": nk,
                                       "args": [{"name": "abc"[i], "kind": k, "size": sz} for i, (k, sz) in enumerate(combo)],
-                                      "order": list(order), "role": "pre"})
+                                      "order": list(order), "role": "pre", "result": {"name": "result", "kind": "int", "size": 7}})
                         # the same violation as a postcondition and (one value, as an attribute) as an invariant
                         if nargs == 1 or rng.random() < 0.25:
-                            cases.append(dict(cases[-1], mid=len(cases) + 1, role="post"))
+                            # (the function returns a value of some kind: a result that is a class / function / method /
+                            #  module / builtin must be left out like an argument of that kind)
+                            rk = KINDS[(ci + nargs) % len(KINDS)]
+                            cases.append(dict(cases[-1], mid=len(cases) + 1, role="post",
+                                              result={"name": "result", "kind": rk, "size": sizes.get(rk, [0])[0]}))
                         if nargs == 1:
                             cases.append(dict(cases[-1], mid=len(cases) + 1, role="inv", named_args=False,
                                               named_kwargs=False))
@@ -51,7 +55,7 @@ def gen_cases(tier: str, rng: random.Random) -> List[dict]:
                 cases.append({"mid": len(cases) + 1, "flavour": "quant", "default_repr": default_repr, "maxstring": ms,
                               "maxlist": ml, "named_args": na, "named_kwargs": False,
                               "args": [{"name": "a", "kind": k, "size": sz}, {"name": "b", "kind": "str", "size": 5 * ms}],
-                              "order": [2, 1], "role": "pre"})
+                              "order": [2, 1], "role": "pre", "result": {"name": "result", "kind": "int", "size": 7}})
     # a quantifier with nested loops that bind the same target name twice (the `_` idiom): the example lines keep the
     # order of first appearance in every process
     for default_repr, ms, ml in limits:
@@ -59,7 +63,7 @@ def gen_cases(tier: str, rng: random.Random) -> List[dict]:
             cases.append({"mid": len(cases) + 1, "flavour": "quant2", "default_repr": default_repr, "maxstring": ms,
                           "maxlist": ml, "named_args": False, "named_kwargs": False,
                           "args": [{"name": "a", "kind": "list", "size": 1}, {"name": "b", "kind": "list", "size": 1}],
-                          "order": order, "role": "pre"})
+                          "order": order, "role": "pre", "result": {"name": "result", "kind": "int", "size": 7}})
     return cases
 
 
@@ -138,7 +142,7 @@ def check_messages(res: CheckResult, tier: str, rng: random.Random) -> None:
             continue
         # identical for every keyword order of the same call
         key = json.dumps([c["flavour"], c["default_repr"], c["maxstring"], c["named_args"], c["named_kwargs"], c["args"],
-                          c.get("role")])
+                          c.get("role"), c.get("result")])
         body = "\n".join(msg.split("\n")[1:])
         if key in base_key and base_key[key][1] != body:
             res.violation("msg.differs_across_runs",
@@ -175,6 +179,10 @@ def check_messages(res: CheckResult, tier: str, rng: random.Random) -> None:
         exp = expected.get(mid)
         if exp is None:
             raise MachineryError("no specification output for message case {}".format(mid))
+        if "result" in keys and not exp["result_ok"]:
+            res.violation("msg.nonrepresentable_shown", what_case + ": the result (a {}) is listed: {!r}".format(
+                c["result"]["kind"], str(vals.get("result"))[:80]), {"signature": "msg.nonrepresentable_shown", "case": c, "message": body})
+            continue
         arg_names = {a["name"] for a in c["args"]} | {"_ARGS", "_KWARGS"}
         got_names = [k for k in keys if k in arg_names]
         if c.get("role") == "inv" and c["flavour"] == "named":
